@@ -1,10 +1,14 @@
 #!/bin/bash
-# try_seed.sh <patch.diff> <PROP> [tier] [extra check args]  -- apply to /repo working tree, run the check, revert.
+# try_seed.sh <patch.diff> <PROP> [tier] [extra check args]
+# Applies the patch to a scratch worktree of /repo HEAD (never to /repo itself), runs the check against it with
+# evidence/replays redirected to a scratch directory, prints the verdict, removes the worktree.
 patch="$1"; prop="$2"; tier="${3:-quick}"; shift 3 2>/dev/null
-cd /repo || exit 2
-if ! git diff --quiet; then echo "repo working tree not clean"; exit 2; fi
-if git apply --check "$patch" 2>/dev/null; then git apply "$patch"; else git apply -3 "$patch" >/dev/null 2>&1 || { echo "PATCH DOES NOT APPLY"; git checkout -- .; exit 3; }; git reset -q; fi
-cd /verif && ./check "$prop" --tier "$tier" "$@" > /tmp/try_seed_out.txt 2>&1; rc=$?
-cd /repo && git checkout -- . && git status --short | grep -v '^??' 
-grep -E "^VIOLATION|^KNOWN|^HARNESS|^\[" /tmp/try_seed_out.txt | cut -c1-260 | head -8
+id="try-$$-$RANDOM"; wt="/tmp/wt/$id"; out="/tmp/wt/$id-out"
+git -C /repo worktree add --detach "$wt" HEAD >/dev/null 2>&1 || { echo "worktree failed"; exit 2; }
+cd "$wt" || exit 2
+if git apply --check "$patch" 2>/dev/null; then git apply "$patch"; elif ! git apply -3 "$patch" >/dev/null 2>&1; then echo "PATCH DOES NOT APPLY"; cd /; git -C /repo worktree remove --force "$wt"; exit 3; fi
+mkdir -p "$out"
+cd /verif && VERIF_REPO="$wt" VERIF_OUT="$out" ./check "$prop" --tier "$tier" "$@" > "$out/log.txt" 2>&1; rc=$?
+grep -E "^VIOLATION|^KNOWN|^HARNESS|^\[|^  class" "$out/log.txt" | cut -c1-300 | head -12
 echo "exit=$rc"
+cd /; git -C /repo worktree remove --force "$wt" >/dev/null 2>&1; rm -rf "$wt" "$out"
